@@ -11,8 +11,15 @@ from ..core import LOG
 from ..workload import Ctx, GenError, generate
 
 
-def rand_operator(rng: Any, ctx: Ctx, *, atoms: float = 0.4, lazy_inverse: bool = True) -> tuple[Any, Any]:
+def rand_operator(rng: Any, ctx: Ctx, *, atoms: float = 0.4, lazy_inverse: bool = True, index: int | None = None) -> tuple[Any, Any]:
     """(input structure, well-typed operator): a single atom or a random expression."""
+    if index is not None:
+        # the first cases of every shard go through one operator of every class in turn
+        slot = index // max(1, ctx.nshards)
+        if slot < len(gen.CLASS_RECIPES):
+            op = generate(lambda: gen.operator_of_class(rng, gen.CLASS_RECIPES[slot]))
+            if op is not None and gen.well_typed(op) is None:
+                return op.in_structure(), op
     gen.begin_case(rng)
     s = gen.rand_struct(rng)
     if rng.random() < atoms:
